@@ -313,3 +313,46 @@ Proof.
     rewrite <- H2, <- (to_list_nth _ v (0, 0) k Hk). apply nth_In. lia.
   - right. split; [reflexivity|]. now apply (pos_of2__none p _ 0).
 Qed.
+
+(* ------------------------------------------------------------------ one counter update of allocate_right_mask *)
+Lemma forallb_to_list : forall (A : Type) (f : A -> bool) (v : vec A),
+  (forall k, 0 <= k < v_len v -> f (v_at v k) = true) -> forallb f (v_to_list v) = true.
+Proof.
+  intros A f v H. apply forallb_forall. intros x Hx. unfold v_to_list in Hx.
+  apply in_map_iff in Hx as (k & <- & Hk). apply upto_In in Hk. now apply H.
+Qed.
+
+(* X[:, arange[W]] += Y;  X[:, arange[setdiff1d(arange, W)]] += 1;  X[:, bit1[0]] = 0, column by column *)
+Lemma counter_update : forall (X : imat) (W : vec Z) (p : Z -> bool) (n : Z) (Ym : imat) (g : Z -> Z -> Z) (bit1 : vec Z),
+  0 <= n -> m_err X = false -> m_nc X = n -> is_sel W p n ->
+  m_err Ym = false -> m_nr Ym = m_nr X -> m_nc Ym = v_len W ->
+  (forall r k, 0 <= k < v_len W -> m_at Ym r k = g r (v_at W k)) ->
+  idx_cols_bad n bit1 = false ->
+  let X1 := np_cols_iadd_m X (np_take (np_arange n) W) Ym in
+  let X2 := np_cols_iadd_c X1 (np_take (np_arange n) (np_setdiff1d (np_arange n) W)) 1 in
+  let X3 := np_cols_set_c X2 (np_tuple_get0 bit1) 0 in
+  m_err X3 = false /\ m_nr X3 = m_nr X /\ m_nc X3 = n /\
+  forall r c, 0 <= c < n ->
+    m_at X3 r c = if vmem c bit1 then 0 else if p c then m_at X r c + g r c else m_at X r c + 1.
+Proof.
+  intros X W p n Ym g bit1 Hn Xe Xc HW Ye Yr Yc Yat Hb. cbv zeta.
+  pose proof (take_arange_sel W p n Hn HW) as HA1.
+  pose proof (take_arange_sel _ _ n Hn (setdiff_arange_sel W p n Hn HW)) as HA2.
+  set (A1 := np_take (np_arange n) W) in *.
+  set (A2 := np_take (np_arange n) (np_setdiff1d (np_arange n) W)) in *.
+  unfold np_cols_set_c, np_cols_iadd_c, np_cols_iadd_m, np_tuple_get0. cbn [m_err m_nr m_nc m_at].
+  rewrite Xe, Xc, Ye, Yr, Yc, Hb, (sel_cols_ok A1 p n n HA1), (sel_cols_ok A2 _ n n HA2) by lia.
+  rewrite !Z.eqb_refl. cbn [orb negb].
+  assert (HlenA : v_len A1 = v_len W) by reflexivity.
+  repeat split.
+  intros r c Hc. destruct (vmem c bit1); [reflexivity|].
+  rewrite (sel_vmem A2 _ n c HA2).
+  replace ((0 <=? c) && (c <? n)) with true by lia. cbn [andb].
+  destruct (pos_of_cases c A1) as [(k & -> & Hk & Hat & Hm) | (-> & Hm)];
+    rewrite (sel_vmem A1 p n c HA1) in Hm; replace ((0 <=? c) && (c <? n)) with true in Hm by lia; cbn [andb] in Hm;
+    rewrite Hm; cbn [negb]; [|reflexivity].
+  rewrite HlenA in Hk. rewrite Yat by exact Hk.
+  assert (HWk : v_at A1 k = v_at W k).
+  { destruct (sel_elems W p n k HW Hk) as [Hr _]. unfold A1, np_take. cbn [v_at]. apply arange_item. lia. }
+  rewrite <- HWk, Hat. reflexivity.
+Qed.
